@@ -10,6 +10,7 @@ import (
 	"github.com/filecoin-project/go-f3/certs"
 	"github.com/filecoin-project/go-f3/gpbft"
 	sym "github.com/filecoin-project/go-f3/internal/verifsym"
+	cid "github.com/ipfs/go-cid"
 	"github.com/ipfs/go-datastore"
 	"github.com/ipfs/go-datastore/query"
 )
@@ -191,3 +192,12 @@ func verifCertEq(a, b *certs.FinalityCertificate) bool {
 }
 
 var _ = sym.Bool
+
+// Batch makes verifDS a datastore.Batching (needed by snapshot import).
+func (d *verifDS) Batch(context.Context) (datastore.Batch, error) {
+	return datastore.NewBasicBatch(d), nil
+}
+
+type gpbftCid = cid.Cid
+
+func makePowerTableCID(pt gpbft.PowerEntries) (cid.Cid, error) { return certs.MakePowerTableCID(pt) }
